@@ -25,7 +25,7 @@ func init() { Registry["C10"] = runC10 }
 //	probe:<h> | cancel | run2 | gate:<h> (park RunHandlers right after Started(h) closes, call Stop/Stopped there)
 //	holdsub:<h> (the Subscribe call of h blocks until released) | release | slowsub (Subscribe calls take 3 ms)
 //	rhfresh (RunHandlers with a context of its own instead of the Run context) | close (Router.Close)
-//	shorttimeout (CloseTimeout 150 ms instead of 3 s)
+//	shorttimeout (CloseTimeout 150 ms instead of 3 s) | waitrun (wait until the first Run has returned)
 //	hold:<h> (a message is sent to h whose handler function blocks until "unhold") | unhold | pause (15 ms)
 type c10CtxKind struct{}
 
@@ -45,6 +45,10 @@ func c10Programs(c *Ctx) []c10Prog {
 		{"stop-at-started", strings.Fields("add:a:p1 add:b:p2 gate:a run waitrunning probe:b cancel")},
 		{"stop-at-started", strings.Fields("add:a:p1 run waitrunning add:b:p2 gate:b rh probe:a cancel")},
 		{"second-run", strings.Fields("add:a:p1 run waitrunning run2 probe:a cancel run2")},
+		// ... also once the router has closed (cancelled, closed by the user, or all handlers stopped)
+		{"second-run", strings.Fields("add:a:p1 run waitrunning probe:a cancel waitrun run2")},
+		{"second-run", strings.Fields("add:a:p1 run waitrunning close waitrun run2")},
+		{"second-run", strings.Fields("add:a:p1 add:b:p2 run waitrunning started:a started:b stop:a stop:b waitstopped:a waitstopped:b waitrun run2")},
 		{"second-run-during-startup", strings.Fields("add:a:p1 add:b:p2 holdsub:a run run2 release waitrunning probe:a probe:b cancel")},
 		{"publish-right-after-running", strings.Fields("add:a:p1 add:b:p2 add:c:p3 run waitrunning probe:c probe:b probe:a cancel")},
 		{"rh-before-run", strings.Fields("add:a:p1 rh run waitrunning probe:a cancel")},
@@ -356,6 +360,14 @@ func c10Run(r *tr.Run, p c10Prog) {
 					// a second Run that was admitted blocks like the first one
 					r.Emit("runret", "k", k, "ok", true)
 				}
+			}
+		case f[0] == "waitrun":
+			// the first Run has returned (the router has closed itself or was closed): nothing is logged, it is only waited for
+			select {
+			case <-runDone:
+			case <-time.After(HangBound):
+				r.Emit("hung", "what", "Run did not return")
+				return
 			}
 		case f[0] == "waitrunning":
 			select {
